@@ -236,6 +236,8 @@ pub struct Model {
     pub poll_nodes: Vec<u32>,
     /// poll ops that completed their task
     pub final_polls: Vec<OpRef>,
+    /// #[trace] twin calls: (op, token of the local parent the traced call runs under)
+    pub twin_calls: Vec<(OpRef, Vec<Item>)>,
 }
 
 type R = Result<(), String>;
@@ -272,6 +274,7 @@ impl Model {
             stack_limit_hits: 0,
             poll_nodes: vec![],
             final_polls: vec![],
+            twin_calls: vec![],
         }
     }
 
@@ -1177,7 +1180,28 @@ impl Model {
                     return err("not inside a closure");
                 }
             }
-            Op::NewTask { .. } | Op::Poll { .. } | Op::DropTask { .. } | Op::Twin { .. } => {
+            Op::Twin { f, slot, .. } => {
+                if *f >= crate::corpus::NTWINS {
+                    return err("no such twin");
+                }
+                let items = match slot {
+                    Some(s) => {
+                        let sp = self.use_span(*s, op)?;
+                        if sp.recording {
+                            Model::issue(&sp)
+                        } else {
+                            vec![]
+                        }
+                    }
+                    None => vec![],
+                };
+                // the C15 oracle assumes no ambient local parent around a twin call
+                if !self.threads[t as usize].scopes.is_empty() {
+                    return err("twin call under an ambient scope");
+                }
+                self.twin_calls.push((op, items));
+            }
+            Op::NewTask { .. } | Op::Poll { .. } | Op::DropTask { .. } => {
                 return self.apply_async(op, t, o, inner, idx, is_inner);
             }
         }
